@@ -80,4 +80,17 @@ theorem effects_accounted : effectRows.all EffRow.ok = true := by decide +kernel
 /-- every batch-statistics layer is constructed with tracked running statistics (so that eval mode uses fixed statistics) -/
 theorem norm_layers_track_running_stats : normCtors.all (fun r => r.2.2 == 0) = true := by decide +kernel
 
+/-- **no shape- or mode-dependent branching that changes which elements are reduced**: every `if` on `self.training` or on
+a tensor extent and every partial / chunked `range` loop of a forward path guards a region that neither reduces, nor slices
+the batch / coil axis with computed bounds, nor accumulates; loops over a full extent are complete by construction -/
+theorem control_flow_keeps_reduced_set :
+    (primTable.all fun f => f.prims.all fun p => p.family != 8 || p.ok) = true := by decide +kernel
+
+/-- the control-flow scan is not vacuous: it sees the eval-mode memory clearing of `RIM.forward`, size tests and the
+per-coil loops -/
+theorem control_flow_rows_nonvacuous :
+    (primTable.any fun f => f.prims.any fun p => p.family == 8 && p.form == 0) = true ∧
+      (primTable.any fun f => f.prims.any fun p => p.family == 8 && p.form == 1) = true ∧
+      (primTable.any fun f => f.prims.any fun p => p.family == 8 && p.form == 3) = true := by decide +kernel
+
 end DirectVerif.Bridge.C18
